@@ -16,7 +16,7 @@ import (
 	"verif/internal/ooxmlw"
 )
 
-var c17Kinds = []string{"s", "sr", "is", "isr", "str", "b", "e", "n", "fn", "z"}
+var c17Kinds = []string{"s", "sr", "is", "isr", "str", "b", "e", "n", "fn", "z", "se", "sr", "sr"}
 
 // c17Shown is the content convention of Sheet.tla (Display): what the writer puts
 // into cell number v of kind t.
@@ -173,7 +173,7 @@ func c17Record(i int, raw []byte) Result {
 		v := 0
 		var shared []ooxmlw.XSI
 		type pend struct{ sh, row, cell int }
-		var sharedAt []pend
+		var sharedAt, emptyAt []pend
 		exps := make([][]c17Exp, nsh)
 		covered := make([][]c17Pos, nsh)
 		kinds := make([]map[c17Pos]string, nsh)
@@ -215,10 +215,10 @@ func c17Record(i int, raw []byte) Result {
 						hidden = true
 					}
 				}
-				if it.T != "z" && !hidden {
+				if d.K != "z" && !hidden {
 					exps[s] = append(exps[s], c17Exp{C: it.C, R: it.R, D: d})
 				}
-				if it.T != "z" && hidden {
+				if d.K != "z" && hidden {
 					stale[s][d] = true
 				}
 				ri, ok := rowIdx[it.R]
@@ -228,6 +228,9 @@ func c17Record(i int, raw []byte) Result {
 					xs.Rows = append(xs.Rows, ooxmlw.XRow{R: it.R, HasR: rowR})
 				}
 				xc := ooxmlw.XCell{Ref: xlsxRef(it.C, it.R), Kind: it.T, Text: c17Content(d)}
+				if it.T == "se" {
+					emptyAt = append(emptyAt, pend{s, ri, len(xs.Rows[ri].Cells)})
+				}
 				if it.T == "s" || it.T == "sr" {
 					shared = append(shared, ooxmlw.XSI{Text: c17Tok(it.V), Rich: it.T == "sr"})
 					sharedAt = append(sharedAt, pend{s, ri, len(xs.Rows[ri].Cells)})
@@ -236,20 +239,36 @@ func c17Record(i int, raw []byte) Result {
 			}
 			wb.Sheets = append(wb.Sheets, xs)
 		}
-		// shared string table: in order of use, or reversed behind an unused entry
-		if sstRev {
-			wb.SST = append(wb.SST, ooxmlw.XSI{Text: c17Tok(0)})
-			for k := len(shared) - 1; k >= 0; k-- {
-				wb.SST = append(wb.SST, shared[k])
+		// shared string table: the items in a random order, with unused plain / rich items and
+		// empty <si/> items in between; cells of kind se point at an empty item
+		order := rnd.Perm(len(shared))
+		slot := make([]int, len(shared))
+		emptyIdx := -1
+		pad := func() {
+			switch rnd.Intn(4) {
+			case 0:
+				wb.SST = append(wb.SST, ooxmlw.XSI{Text: c17Tok(0), Rich: rnd.Intn(2) == 0})
+			case 1:
+				emptyIdx = len(wb.SST)
+				wb.SST = append(wb.SST, ooxmlw.XSI{Empty: true})
 			}
-			for k, p := range sharedAt {
-				wb.Sheets[p.sh].Rows[p.row].Cells[p.cell].SI = len(shared) - k
-			}
-		} else {
-			wb.SST = shared
-			for k, p := range sharedAt {
-				wb.Sheets[p.sh].Rows[p.row].Cells[p.cell].SI = k
-			}
+		}
+		_ = sstRev
+		for _, k := range order {
+			pad()
+			slot[k] = len(wb.SST)
+			wb.SST = append(wb.SST, shared[k])
+		}
+		pad()
+		if len(emptyAt) > 0 && emptyIdx < 0 {
+			emptyIdx = len(wb.SST)
+			wb.SST = append(wb.SST, ooxmlw.XSI{Empty: true})
+		}
+		for k, p := range sharedAt {
+			wb.Sheets[p.sh].Rows[p.row].Cells[p.cell].SI = slot[k]
+		}
+		for _, p := range emptyAt {
+			wb.Sheets[p.sh].Rows[p.row].Cells[p.cell].SI = emptyIdx
 		}
 		path, err := c17WriteFile(wb.Members(), ".xlsx")
 		if err != nil {
